@@ -78,6 +78,9 @@ pub struct KnownFinding {
     /// the finding is a family of keys: `key` is a prefix of "<invariant>:<key>"
     #[serde(default)]
     pub key_is_prefix: bool,
+    /// the class part of the key contains this text anywhere
+    #[serde(default)]
+    pub class_contains: Option<String>,
     /// like `class_atom`, but the atom only has to END with this text (e.g.
     /// "constrained-string/string" reached directly, through a $ref, or nested)
     #[serde(default)]
@@ -125,6 +128,9 @@ pub fn match_known<'a>(
         }
         if k.key_is_prefix {
             return full.starts_with(k.key.as_str());
+        }
+        if let (Some(sub), Some(c)) = (&k.class_contains, &class) {
+            return k.key == head && c.contains(sub.as_str());
         }
         if let (Some(suffix), Some(c)) = (&k.class_atom_suffix, &class) {
             return k.key == head && crate::model::class_atoms(c).iter().any(|a| a.ends_with(suffix.as_str())) || (k.key == head && c.ends_with(suffix.as_str()));
